@@ -4,6 +4,7 @@ import (
 	"fmt"
 	"math/rand"
 	"strings"
+	"syscall"
 	"time"
 
 	"verif/harness/tty"
@@ -22,6 +23,9 @@ func workerTCP(r *vk.Run, w, n int, args []string) {
 		sessions = 400
 	}
 	per := sessions/n + 1
+	if w%4 == 0 || !r.Quick() {
+		stalledSession(r, rng)
+	}
 	for i := 0; i < per; i++ {
 		switch i % 3 {
 		case 0, 1:
@@ -30,6 +34,104 @@ func workerTCP(r *vk.Run, w, n int, args []string) {
 			equivalence(r, rng)
 		}
 	}
+}
+
+// stalledSession: "no request can wedge fzf", with the one situation in which the server has to
+// give up on a request: the terminal stops reading (its emulator is stopped), fzf's renderer blocks
+// in a write while it holds the terminal lock, GET requests arrive and time out. After the terminal
+// reads again, fzf must answer GET and execute a POST (bounded progress; the verdict needs fzf to be
+// alive with a silent trace for the whole watchdog).
+func stalledSession(r *vk.Run, rng *rand.Rand) {
+	s, err := tty.Start(tty.StartOpts{Args: []string{"--multi", "--no-mouse"}, InputCmd: "seq 1000 1500", Cols: 120, Rows: 40})
+	if err != nil {
+		r.Inconclusive("start: " + err.Error())
+		if s != nil {
+			s.Close()
+		}
+		return
+	}
+	defer s.Close()
+	if _, ok := s.WaitQuiescent(30 * time.Second); !ok {
+		r.Inconclusive("no quiescence at start: " + s.LastWait)
+		return
+	}
+	if !s.StallTerminal(true) {
+		r.Inconclusive("cannot stop the terminal emulator")
+		return
+	}
+	post := func(body string, d time.Duration) bool {
+		reply, _ := s.RawHTTP([]byte(fmt.Sprintf("POST / HTTP/1.1\r\nContent-Length: %d\r\n\r\n%s", len(body), body)), d, false)
+		return strings.HasPrefix(string(reply), "HTTP/1.1 200")
+	}
+	// redraws until the pty is full and a POST is no longer taken
+	accepted, refused := 0, 0
+	for i := 0; i < 400 && refused < 2; i++ {
+		if post("toggle-all+change-prompt("+strings.Repeat("p", 40+i%30)+"> )", 700*time.Millisecond) {
+			accepted++
+		} else {
+			refused++
+		}
+	}
+	// GETs while the renderer is stuck
+	gets := 1 + rng.Intn(3)
+	done := make(chan string, gets)
+	for g := 0; g < gets; g++ {
+		go func() {
+			reply, _ := s.RawHTTP([]byte("GET / HTTP/1.1\r\n\r\n"), 8*time.Second, false)
+			done <- firstLine(string(reply))
+		}()
+	}
+	var getReplies []string
+	for g := 0; g < gets; g++ {
+		getReplies = append(getReplies, <-done)
+	}
+	timedOut := 0
+	for _, g := range getReplies {
+		if !strings.HasPrefix(g, "HTTP/1.1 200") {
+			timedOut++
+		}
+	}
+	time.Sleep(time.Duration(rng.Intn(1500)) * time.Millisecond)
+	s.StallTerminal(false)
+	r.Eval(1)
+	r.Count("stall_sessions", 1)
+	r.Count("stall_gets_unanswered", int64(timedOut))
+	wit := map[string]any{"posts_accepted_while_stalled": accepted, "posts_refused_while_stalled": refused, "get_replies_while_stalled": getReplies}
+	// bounded progress after the stall
+	probe := fmt.Sprintf("wedge-probe-%d", rng.Intn(100000))
+	deadline := time.Now().Add(40 * time.Second)
+	posted := false
+	for {
+		if !posted {
+			posted = post("change-query("+probe+")", 2*time.Second)
+		}
+		if posted {
+			if st, err := s.Get(1); err == nil && st.Query == probe {
+				break
+			}
+		}
+		if _, exited := s.ExitCode(); exited {
+			wit["stderr"] = clipS(s.Stderr())
+			r.Violate(vk.Violation{Summary: "C16: fzf exited after its terminal stalled while GET requests were pending: " + firstLine(s.Stderr()), Witness: wit})
+			return
+		}
+		if time.Now().After(deadline) {
+			n1 := len(s.Trace())
+			time.Sleep(2 * time.Second)
+			if len(s.Trace()) != n1 {
+				r.Inconclusive("after the terminal stall fzf is slow but its trace is still active")
+				return
+			}
+			s.Signal(syscall.SIGQUIT)
+			s.WaitExit(3 * time.Second)
+			wit["probe_post_accepted"] = posted
+			wit["goroutine_dump"] = clipS(s.Stderr())
+			r.Violate(vk.Violation{Summary: fmt.Sprintf("C16: fzf is wedged: %d GET request(s) arrived while the terminal was not reading (%d unanswered); 40 s after the terminal resumed fzf still does not answer GET / execute a POST, and its trace is silent", gets, timedOut), Witness: wit})
+			return
+		}
+		time.Sleep(50 * time.Millisecond)
+	}
+	r.Distinct(fmt.Sprintf("stall gets%d unanswered%d", gets, timedOut))
 }
 
 func snapshot(st *tty.Status) string {
